@@ -29,6 +29,7 @@ RULE = ("(sequential) ALL operation sequences of length <= 5 (thorough: 6) over 
         "one evaluation = one history / one executed schedule; distinct = history or (scenario, trace)")
 ASSUMPTIONS = ["awaiting a handle taken while a value was cached returns that value (unspecified after del; accepted)",
                "the getter's own suspensions are the only scheduling points besides lock waits"]
+EXHAUSTIVE_SUBSPACES = 'all operation sequences of length <= 5 (thorough: 6) over 7 operations; DFS-complete schedule sets for the scenarios counted in scenarios_explored_exhaustively'
 EXHAUSTIVE = {"quick": False, "thorough": False}
 N_SEQ_RANDOM = {"quick": 20000, "thorough": 500000}
 N_SCEN = {"quick": 800, "thorough": 12000}
